@@ -91,7 +91,7 @@ def _list_bytes(db, f, roles, which):
     """byte terms handed to FreeList::allocate(n) / FreeList::deallocate(ptr, n) on the returning paths of f, helpers of the pool
     (same class, or the pool's members when f is a traits member) inlined"""
     def inl(fn, callee, t):
-        if len(callee.blocks) > 16:
+        if len(callee.blocks) > 48:
             return False
         cc = cls_template(callee.cls)
         return cc in ('memory_pool', 'memory_pool_collection') and callee.short in (
